@@ -15,8 +15,9 @@ def run(rep, tier, seed):
     from areas.c05g import corpus
     progs = corpus(tier)
     zoo = zoo_corpus(rep)
-    rep.cov["zoo_programs"] = len(zoo)
-    progs = progs + zoo
+    calls = call_programs(tier)
+    rep.cov["zoo_programs"] = len(zoo); rep.cov["zoo_stdlib_call_programs"] = len(calls)
+    progs = progs + zoo + calls
     K = 3
     reqs = [{"id": i, "mode": "stepwise", "text": p, "probes": False, "steps": K} for i, (_, p) in enumerate(progs)]
     outs = execpool.run_requests(reqs, nworkers=16, timeout=300)
@@ -108,6 +109,12 @@ def zoo_program(fam, shape, kind):
     if fam == "not": return [A, "y := !a"]
     if fam == "transpose": return [A, "y := a'"]
     if fam == "matmul": return [A, f"b := {zval(kind, {'row3': 'col3', 'col3': 'row3', 'mat23': 'mat32', 'mat32': 'mat23'}.get(shape, shape), 3)}", "y := a ** b"]
+    if fam == "solve":
+        if shape not in ("mat22", "mat44") or kind != "f64": return None
+        n = r
+        M = "[" + "; ".join(" ".join(str((3 if i == j else 0) + 1 + (i * n + j) % 3) for j in range(n)) for i in range(n)) + "]"
+        return [f"a := {M}", "b := [" + "; ".join(str(2 + i) for i in range(n)) + "]", "y := a \\ b"]
+    if fam == "dot": return None if shape not in ("row3", "col3", "mat22") else [A, B, "y := matrix/dot(a, b)"]
     if fam == "sumrow": return [A, "y := stats/sum/row(a)"]
     if fam == "sumcol": return [A, "y := stats/sum/column(a)"]
     if fam.startswith("horz"): return [A, B, "y := [" + " ".join(["a", "b"][i % 2] for i in range(int(fam[4]))) + "]"]
@@ -157,7 +164,35 @@ def zoo_program(fam, shape, kind):
     if fam == "col_bcast": return None if shape not in ("mat22", "mat23", "mat32", "mat44") else [A, "b := [" + "; ".join(zlit(kind, 3 + i) for i in range(r)) + "]", "y := a + b"]
     return None
 
-def zoo_corpus(rep):
+def stdlib_names():
+    """every qualified function name that occurs as a string in the standard-library sources (generating inputs only: a
+    name that is not callable simply yields a program that does not evaluate)"""
+    import subprocess
+    try:
+        out = subprocess.run(["grep", "-rhoE", r'"(math|stats|matrix|set|string|combinatorics|compare|logic|range|table|convert)/[a-z0-9/-]+"',
+                              "/repo/machines", "/repo/src/interpreter/src"], stdout=subprocess.PIPE, text=True, timeout=120).stdout
+    except Exception:
+        return []
+    return sorted({x.strip('"') for x in out.split() if "assign" not in x})
+
+def call_programs(tier="quick"):
+    """generic kernel zoo: name(args) for every harvested name, 1..3 arguments of one shape and kind; whatever evaluates must be
+    a fixed point of re-evaluation"""
+    progs = []
+    shapes = ["scalar", "row3", "col3", "mat22"] + (["mat23"] if tier != "quick" else [])
+    for name in stdlib_names():
+        for ar in (1, 2, 3):
+            for shape in shapes:
+                for kind in (["f64"] if tier == "quick" or shape not in ("scalar", "row3") else ["f64", "u8", "bool", "string"]):
+                    args = "abc"[:ar]
+                    st = [f"{v} := {zval(kind, shape, 2 + i)}" for i, v in enumerate(args)]
+                    if name.startswith("set/") and shape == "row3":
+                        st = [f"{v} := {{" + ", ".join(zlit(kind, 2 + i + j) for j in range(3)) + "}" for i, v in enumerate(args)]
+                    st.append(f"y := {name}({', '.join(args)})")
+                    progs.append((f"zoo:call:{name}/{ar}/{shape}/{kind}", "\n".join(st)))
+    return progs
+
+def zoo_corpus(rep, tier="quick"):
     t = tlc.run("MC_C19z", "MC_C19z.cfg", workers=4, timeout=600)
     if not t.ok: raise tlc.TlcError("MC_C19z did not complete")
     progs = []
